@@ -371,9 +371,13 @@ Proof.
   assert (E : PrimFloat.leb two52 (PrimFloat.abs e) = false).
   { rewrite leb_R by auto using fin_two52, fin_abs. rewrite FR_two52, FR_abs, Rabs_pos_eq by exact H0.
     apply Rle_bool_false. exact H1. }
-  rewrite E. destruct (fin_nonneg_sf e F H0) as [[s [Es Ez]]|[m [ex [Es Ev]]]]; rewrite Es.
+  assert (L0 : PrimFloat.ltb e 0 = false).
+  { rewrite ltb_R by auto using fin_zero. rewrite FR_zero. apply Rlt_bool_false. exact H0. }
+  destruct (fin_nonneg_sf e F H0) as [[s [Es Ez]]|[m [ex [Es Ev]]]]; rewrite Es.
   - split; [exact F|]. rewrite Ez, (Zfloor_IZR 0). lra.
-  - rewrite (f_trunc_Z_floor e F H0). destruct (Zfloor_range (FR e) (conj H0 H1)) as [Z1 Z2].
+  - rewrite E, L0. cbn [andb].
+    rewrite (f_trunc_Z_floor e F H0) by (apply Rlt_trans with (1 := H1); exact bpow52_lt_63).
+    destruct (Zfloor_range (FR e) (conj H0 H1)) as [Z1 Z2].
     destruct (f_of_Z_exact (Zfloor (FR e))) as [Fz Ez]; [lia|].
     apply sub_floor_exact; auto.
 Qed.
@@ -433,5 +437,44 @@ Proof.
       assert (H1 : (FR sk1 < 1)%R) by (revert G; case Rle_bool_spec; [discriminate|auto]).
       destruct (IH _ _ _ _ Hl F1 (conj (proj1 R1) H1) H) as (A & B & C). split; [exact A|]. split; [exact B|].
       apply Rle_trans with (1 := C). rewrite plus_IZR. lra.
+Qed.
+
+(* ... and the count only grows: every int(math.Floor(.)) added is the conversion of a finite value in
+   [0, 2^52), hence not negative (on amd64 an out-of-range conversion - NaN, an infinity, 2^63 and
+   beyond - would add math.MinInt64 instead: F64.f_trunc_Z) *)
+Lemma count_gen_lower : forall exps expected skim e' skim',
+  Forall exp_ok exps -> fin skim -> (0 <= FR skim < 1)%R ->
+  count_offspring_gen float_qnum exps expected skim = (e', skim') -> expected <= e'.
+Proof.
+  induction exps as [|e l IH]; intros expected skim e' skim' Hf Fs Hs H.
+  - cbn in H. injection H as <- _. lia.
+  - inversion Hf as [|? ? [Fe He] Hl]; subst. cbn [count_offspring_gen] in H.
+    cbn [q_floorZ q_ge1 q_add q_frac q_sub q_floor float_qnum] in H.
+    rewrite (trunc_ffloor e Fe He) in H.
+    assert (Z0 : 0 <= Zfloor (FR e)) by (apply Zfloor_lub; apply He).
+    destruct (fmod1_R e Fe He) as [Ffr Efr]. pose proof (frac_range (FR e)) as Rfr. rewrite <- Efr in Rfr.
+    destruct (skim_add skim (fmod1 e) Fs Ffr Hs Rfr) as (F1 & R1 & U1).
+    set (sk1 := (skim + fmod1 e)%float) in *.
+    pose proof two_lt_52 as T52.
+    destruct (PrimFloat.leb 1 sk1) eqn:G.
+    + apply leb_true_R in G; auto using fin_one. rewrite FR_one in G.
+      assert (H1 : (0 <= FR sk1 < bpow radix2 52)%R) by lra.
+      rewrite (trunc_ffloor sk1 F1 H1) in H.
+      assert (Z1 : 0 <= Zfloor (FR sk1)) by (apply Zfloor_lub; apply H1).
+      destruct (ffloor_R sk1 F1 H1) as [Ffl Efl].
+      destruct (sub_floor_exact sk1 (ffloor sk1) F1 H1 Ffl Efl) as [F2 E2].
+      pose proof (frac_range (FR sk1)) as R2. rewrite <- E2 in R2.
+      pose proof (IH _ _ _ _ Hl F2 R2 H). lia.
+    + rewrite leb_R in G by auto using fin_one. rewrite FR_one in G.
+      assert (H1 : (FR sk1 < 1)%R) by (revert G; case Rle_bool_spec; [discriminate|auto]).
+      pose proof (IH _ _ _ _ Hl F1 (conj (proj1 R1) H1) H). lia.
+Qed.
+
+(* "finite and 0 <= e < 2^52" as float comparisons *)
+Lemma exp_ok_of_cmp e : PrimFloat.leb 0%float e = true -> PrimFloat.ltb e two52 = true -> exp_ok e.
+Proof.
+  intros H0 H1. assert (F : fin e) by exact (leb0_ltbfin_fin _ _ H0 H1). split; [exact F|]. split.
+  - rewrite <- FR_zero. apply leb_true_R; auto using fin_zero.
+  - rewrite <- FR_two52. apply ltb_true_R; auto using fin_two52.
 Qed.
 
